@@ -35,18 +35,19 @@ CONSTANTS
     Ports,          \* port numbers explored (besides "omitted" = 0)
     TrimCut,        \* 1 = brackets removed exactly; 2 = pinned code (D8)
     DialPortRule,   \* "url" = dial_addr without port keeps the URL's port; "default" = pinned code (D12)
+    PortCheck,      \* TRUE = a port above 65535 is refused; FALSE = deviation: truncated to 16 bit
     Export          \* TRUE: print every case (leg B generator)
 
 VARIABLES a, o, pc
 vars == <<a, o, pc>>
 
-AllSchemes == {"udp", "tcp", "tcp+pipeline", "tls", "tls+pipeline", "https", "h3", "quic"}
+AllSchemes == {"udp", "tcp", "tcp+pipeline", "tls", "tls+pipeline", "https", "h3", "quic", "doq"}
 MustIp     == {"udp", "tcp", "tcp+pipeline"}      \* plain protocols: no resolver, an IP is demanded
-TlsSchemes == {"tls", "tls+pipeline", "https", "h3", "quic"}
+TlsSchemes == {"tls", "tls+pipeline", "https", "h3", "quic", "doq"}
 HttpSchemes == {"https", "h3"}
 
 DefPort(s) == IF s \in {"udp", "tcp", "tcp+pipeline"} THEN 53
-              ELSE IF s \in {"tls", "tls+pipeline", "quic"} THEN 853 ELSE 443
+              ELSE IF s \in {"tls", "tls+pipeline", "quic", "doq"} THEN 853 ELSE 443
 
 V6Forms == {"mid", "lead", "full"}     \* g:g::g   ::g   g:g:g:g:g:g:g:g
 HostForms == {[k |-> "v4", f |-> "plain"], [k |-> "name", f |-> "plain"]}
@@ -66,7 +67,7 @@ IsCase(c) ==
     /\ DOMAIN c = {"scheme", "hk", "form", "port", "dial", "dform", "dport", "path"}
     /\ c.scheme \in AllSchemes
     /\ [k |-> c.hk, f |-> c.form] \in HostForms
-    /\ c.port \in 0..65535 /\ c.dport \in 0..65535
+    /\ c.port \in 0..99999 /\ c.dport \in 0..99999
     /\ c.path \in BOOLEAN
     /\ \E d \in {[k |-> "none", f |-> "plain"], [k |-> "ip4", f |-> "plain"], [k |-> "host", f |-> "plain"],
                  [k |-> "ip4port", f |-> "plain"], [k |-> "ip6", f |-> "mid"], [k |-> "ip6", f |-> "lead"],
@@ -82,6 +83,10 @@ Unasserted(c) == c.hk = "v6bare" /\ c.port # 0
 
 EffHostIsName(c) == IF c.dial # "none" THEN c.dial = "host" ELSE c.hk = "name"
 
+\* a port number above 65535 cannot be honoured: the address must be refused, never altered
+BadPort(p) == p > 65535
+MustReject(c) == BadPort(c.port) \/ BadPort(c.dport)
+
 \* combinations the implementation may refuse when the upstream is created
 MayReject(c) == (c.scheme \in MustIp /\ EffHostIsName(c)) \/ c.hk = "v6bare"
 
@@ -96,8 +101,8 @@ Conn(h, p, s) == [created |-> TRUE, host |-> h, port |-> p, sni |-> s]
 \* o: what the real upstream did (a refusal, or one connection it opened)
 Allowed(c, x) ==
     \/ Unasserted(c)
-    \/ ~x.created /\ MayReject(c)
-    \/ /\ x.created
+    \/ ~x.created /\ (MayReject(c) \/ MustReject(c))
+    \/ /\ x.created /\ ~MustReject(c)
        /\ x.host = Expected(c).host
        /\ x.port = Expected(c).port
        /\ x.sni = Expected(c).sni
@@ -147,7 +152,8 @@ Split(s) ==
 TrySplit(s) ==
     LET r == Split(s) IN
     IF ~r.ok THEN [err |-> FALSE, host |-> s, port |-> 0]
-    ELSE IF Len(r.port) = 1 /\ r.port[1].t = "p" THEN [err |-> FALSE, host |-> r.host, port |-> r.port[1].v]
+    ELSE IF Len(r.port) = 1 /\ r.port[1].t = "p" /\ (r.port[1].v <= 65535 \/ ~PortCheck)
+         THEN [err |-> FALSE, host |-> r.host, port |-> r.port[1].v % 65536]     \* strconv.ParseUint(s, 10, 16)
     ELSE [err |-> TRUE, host |-> <<>>, port |-> 0]
 
 \* parseDialAddr(urlHost, dialAddr, defaultPort)
@@ -155,7 +161,7 @@ ParseDial(uh, dt, def) ==
     LET r == TrySplit(IF dt # <<>> THEN dt ELSE uh)
         u == TrySplit(uh)
         fallback == IF DialPortRule = "url" /\ dt # <<>> /\ ~u.err /\ u.port # 0 THEN u.port ELSE def
-    IN [err |-> r.err, host |-> r.host, port |-> IF r.port = 0 THEN fallback ELSE r.port]
+    IN [err |-> r.err \/ u.err, host |-> r.host, port |-> IF r.port = 0 THEN fallback ELSE r.port]
 
 RemovePort(s) == LET r == Split(s) IN IF r.ok THEN r.host ELSE s
 
@@ -192,18 +198,19 @@ Next == Run
 Spec == Init /\ [][Next]_vars
 
 TypeOK == IsCase(a) /\ pc \in {"new", "done", "created", "conn", "rejected", "end"}
-                    /\ o.created \in BOOLEAN /\ o.port \in 0..65535
+                    /\ o.created \in BOOLEAN /\ o.port \in 0..99999
 
 \* C18
 C18Inv == pc \in {"done", "conn", "rejected"} => Allowed(a, o)
 
 \* sanity lemmas on the contract itself
-PortDefined == Expected(a).port \in 1..65535
+PortDefined == ~MustReject(a) => Expected(a).port \in 1..65535
 BracketInsensitive == a.hk = "v6bracket" => Expected(a) = Expected([a EXCEPT !.hk = "v6bare"])
 SniNeverDial == Expected(a).sni # "dial"
 DefaultOnlyWhenOmitted == (a.port # 0 \/ a.dport # 0) => Expected(a).port \in {a.port, a.dport}
 
 Emit == (Export /\ pc = "new") =>
     PrintT(<<"BEH", ToJson([a |-> a, url |-> UrlHostTok(a), dial |-> DialTok(a), exp |-> Expected(a),
-                            mayReject |-> MayReject(a), unasserted |-> Unasserted(a)])>>)
+                            mayReject |-> MayReject(a), mustReject |-> MustReject(a),
+                            unasserted |-> Unasserted(a)])>>)
 =============================================================================
